@@ -10,7 +10,8 @@
    The record keeps the TRUTH (cst: state of every connection, son/live: the streams and the connection
    each one runs on, ga: connections that received a go-away) next to the BOOKS (slot: the client new
    streams go to, per index; req: requests resource; act / cact: request_active / connection_active
-   gauges; cnt: open streams the client counts on its connection).
+   gauges; cnt: open streams the client counts on its connection, i.e. the streams the connection object
+   knows; pend: streams the pool has handed out whose request is not yet written).
    Operations (one per linearization point of the code):
      new      CheckAndInit + NewStream for a request (Kind "xmux": the index's client is dialled when the
               slot is empty or going away, never after Shutdown; Kind "h2": a going-away client is dropped
@@ -21,7 +22,20 @@
               when its last stream is over
      rclose / garbage   the connection is closed by the peer / by the pool after undecodable input:
               every stream on it ends
-     poolclose / shutdown   ConnectionPool.Close() / Shutdown()                                   *)
+     poolclose / shutdown   ConnectionPool.Close() / Shutdown()
+   "new" is TWO steps of the code: the pool hands out a stream (NewStream returns a sender: the admission is
+   taken there, nothing is on the wire) and the caller then writes the request through it (AppendHeaders ...
+   end of request).  With SplitNew the histories also take a request in those two steps, with every other
+   operation allowed in between:
+     lease    CheckAndInit + NewStream, nothing written yet (pend: streams handed out and not yet written)
+     send     the request is written.  ok: it reaches the peer on the connection the stream was leased on.
+              sendfail: the connection has gone in between (closed by the peer, by the pool, after a go-away
+              that found it without open two-way streams) or the encoder refuses the frame (enc = FALSE):
+              the stream is reset and destroyed on the spot.  An admission taken at lease time is given back
+              exactly once - by whatever ended the stream first (the connection's close resets the streams
+              it knows: every two-way stream of an xprotocol connection; an HTTP/2 connection learns of a
+              stream only when it is written, so there the failed write gives it back).  A oneway stream
+              holds nothing and gives nothing back, however it ends.                                     *)
 EXTENDS Integers, Sequences, FiniteSets, TLC, Json
 
 CONSTANTS Kind,       \* "xmux" | "h2" | "bind" (xprotocol poolBinding: one client per downstream connection,
@@ -29,6 +43,7 @@ CONSTANTS Kind,       \* "xmux" | "h2" | "bind" (xprotocol poolBinding: one clie
           NConns, NStreams, NIdx,
           MaxReqs,    \* set of max_requests values (0 = unlimited)
           MaxOps,
+          SplitNew,   \* TRUE: requests are also taken in the code's two steps (lease, send)
           Defects
 
 Conns == 1..NConns
@@ -41,23 +56,26 @@ vars == <<maxReq, m, last, hist>>
 M0 == [cst |-> [c \in Conns |-> "new"], ga |-> {}, slot |-> [i \in Idx |-> 0],
        son |-> [s \in Streams |-> 0], live |-> {}, ow |-> {}, cnt |-> [c \in Conns |-> 0],
        nstream |-> 0, dialled |-> 0, req |-> 0, act |-> 0, cact |-> 0, shut |-> FALSE,
-       bound |-> [c \in Conns |-> 0], dclosed |-> {}]      \* binding pool: downstream connection of a client; closed downstream connections
+       bound |-> [c \in Conns |-> 0], dclosed |-> {}, pend |-> {}]      \* binding pool: downstream connection of a client; closed downstream connections
 
 Open(q) == {c \in Conns : q.cst[c] = "open"}
 On(q, c) == {s \in q.live : q.son[s] = c}
+(* the streams the connection object knows, i.e. those its close resets: an xprotocol client stream is entered in the
+   connection's table when it is created, an HTTP/2 one when its HEADERS are written *)
+Known(q, c) == IF Kind = "h2" THEN On(q, c) \ q.pend ELSE On(q, c)
 Out(q, res, s, c) == [m |-> q, res |-> res, s |-> s, c |-> c]
 CanReq(q, mr) == mr = 0 \/ q.req < mr
 
 (* a set of streams ends (each exactly once) *)
 End(q, S) == [q EXCEPT !.live = @ \ S, !.req = @ - Cardinality(S), !.act = @ - Cardinality(S),
-                       !.cnt = [c \in Conns |-> @[c] - Cardinality({s \in S : q.son[s] = c})]]
+                       !.cnt = [c \in Conns |-> @[c] - Cardinality({s \in S \cap Known(q, c) : TRUE})]]
 CloseConn(q, c) == [q EXCEPT !.cst[c] = "closed", !.cact = @ - 1]
 (* the connection is gone: its streams end, the slot that names it is cleared unless it was going away
    (then the slot may already name its successor) *)
 RECURSIVE CloseSet(_, _)
 CloseSet(q, S) == IF S = {} THEN q ELSE
                   LET c == CHOOSE x \in S : TRUE IN
-                  CloseSet([CloseConn(End(q, On(q, c)), c) EXCEPT !.slot = [i \in Idx |-> IF @[i] = c THEN 0 ELSE @[i]]], S \ {c})
+                  CloseSet([CloseConn(End(q, Known(q, c)), c) EXCEPT !.slot = [i \in Idx |-> IF @[i] = c THEN 0 ELSE @[i]]], S \ {c})
 (* the downstream connection i closes: every client bound to it is closed *)
 DClose(q, i) == [CloseSet(q, {c \in Open(q) : q.bound[c] = i}) EXCEPT !.dclosed = @ \cup {i}]
 Gone(q, c) ==
@@ -65,7 +83,7 @@ Gone(q, c) ==
        IF c \in q.ga /\ On(q, c) = {} THEN CloseSet(q, {c})      \* a drained going-away client leaves its downstream alone
        ELSE DClose(q, q.bound[c])                                \* otherwise both ends go together
   ELSE
-  LET e == CloseConn(End(q, On(q, c)), c) IN
+  LET e == CloseConn(End(q, Known(q, c)), c) IN
   IF "DeleteClientInGoAway" \in Defects /\ c \in q.ga
   THEN [e EXCEPT !.slot = [i \in Idx |-> 0]]           \* deletes whatever client the index holds now
   ELSE [e EXCEPT !.slot = [i \in Idx |-> IF @[i] = c /\ c \notin q.ga THEN 0 ELSE @[i]]]
@@ -110,7 +128,25 @@ StepEnd(q, s, counted) ==
   IF s \notin q.live THEN {} ELSE
   LET c == q.son[s]
       e == IF counted THEN End(q, {s}) ELSE [q EXCEPT !.live = @ \ {s}, !.cnt[c] = @ - 1]
-  IN {Out(Drain(e, c), "ok", s, c)}
+  IN {Out(Drain([e EXCEPT !.pend = @ \ {s}], c), "ok", s, c)}       \* (a leased stream can be reset before it is written)
+
+(* ---- the two steps of a request ---- *)
+Lease(R) == {IF r.res = "ok" THEN [r EXCEPT !.m.pend = @ \cup {r.s},
+                                               !.m.cnt[r.c] = IF Kind = "h2" THEN @ - 1 ELSE @]      \* not yet in the HTTP/2 connection's table
+             ELSE r : r \in R}
+(* a oneway stream ends (failed write, local reset): it was never admitted, there is nothing to give back *)
+OnewayEnds(q, s) == LET p == [q EXCEPT !.pend = @ \ {s}] IN
+                    IF "OnewayReleasesOnFailure" \in Defects THEN [p EXCEPT !.req = @ - 1, !.act = @ - 1] ELSE p
+StepSend(q, s, enc) ==
+  IF s \notin q.pend THEN {} ELSE
+  LET c == q.son[s]
+      p == [q EXCEPT !.pend = @ \ {s}]
+  IN IF q.cst[c] = "open" /\ enc
+     THEN {Out(IF Kind = "h2" THEN [p EXCEPT !.cnt[c] = @ + 1] ELSE p, "ok", s, c)}
+     ELSE IF s \in q.ow THEN {Out(OnewayEnds(q, s), "sendfail", s, c)}
+     ELSE IF s \in q.live THEN {Out(Drain([End(q, {s}) EXCEPT !.pend = @ \ {s}], c), "sendfail", s, c)}      \* given back here
+     ELSE {Out(p, "sendfail", s, c)}                                               \* given back when the connection closed
+StepResetOneway(q, s) == IF s \in q.pend \cap q.ow THEN {Out(OnewayEnds(q, s), "ok", s, q.son[s])} ELSE {}
 
 GoAwayOn(q, c) == LET g == [q EXCEPT !.ga = @ \cup {c}] IN
                   Drain(IF Kind = "bind" THEN [g EXCEPT !.slot = [i \in Idx |-> IF @[i] = c THEN 0 ELSE @[i]]] ELSE g, c)
@@ -132,10 +168,12 @@ StepDClose(q, i) == IF i \in q.dclosed THEN {} ELSE {Out(DClose(q, i), "ok", 0, 
 
 Step(q, o, mr) ==
   CASE o.op = "new"       -> IF o.i = 0 THEN StepNew(q, o.up, o.oneway, mr) ELSE StepNewAt(q, o.i, o.up, o.oneway, mr)
+    [] o.op = "lease"     -> Lease(IF o.i = 0 THEN StepNew(q, o.up, o.oneway, mr) ELSE StepNewAt(q, o.i, o.up, o.oneway, mr))
+    [] o.op = "send"      -> StepSend(q, o.s, o.enc)
     [] o.op = "dclose"    -> StepDClose(q, o.i)
-    [] o.op = "resp"      -> StepEnd(q, o.s, TRUE)
-    [] o.op = "reset"     -> StepEnd(q, o.s, "DestroyNotCounted" \notin Defects)
-    [] o.op = "rreset"    -> StepEnd(q, o.s, TRUE)
+    [] o.op = "resp"      -> IF o.s \in q.pend THEN {} ELSE StepEnd(q, o.s, TRUE)          \* the peer only knows requests it was sent
+    [] o.op = "reset"     -> IF o.s \in q.ow THEN StepResetOneway(q, o.s) ELSE StepEnd(q, o.s, "DestroyNotCounted" \notin Defects)
+    [] o.op = "rreset"    -> IF o.s \in q.pend THEN {} ELSE StepEnd(q, o.s, TRUE)
     [] o.op = "goaway"    -> StepGoAway(q, o.c)
     [] o.op = "rclose"    -> StepGone(q, o.c)
     [] o.op = "garbage"   -> StepGone(q, o.c)
@@ -144,7 +182,7 @@ Step(q, o, mr) ==
     [] OTHER -> {}
 
 (* a retry re-uses the downstream context (and with it the client stream object) of an attempt that ended *)
-EndedTwoWay(q) == {s \in 1..q.nstream : s \notin q.live /\ s \notin q.ow}
+EndedTwoWay(q) == {s \in 1..q.nstream : s \notin q.live /\ s \notin q.ow /\ s \notin q.pend}
 DialWouldBeTried(q) == \E i \in Idx : q.slot[i] = 0 \/ q.slot[i] \in q.ga
 NewIdx(q) == IF Kind = "bind" THEN Idx \ q.dclosed ELSE {0}
 Ops(q) ==
@@ -152,7 +190,12 @@ Ops(q) ==
                                                                r \in (IF EndedTwoWay(q) # {} THEN BOOLEAN ELSE {FALSE}), i \in NewIdx(q)}
   \cup (IF Kind = "bind" THEN {[op |-> "new", up |-> FALSE, oneway |-> FALSE, retry |-> FALSE, i |-> i] : i \in {j \in NewIdx(q) : q.slot[j] = 0}}
         ELSE IF DialWouldBeTried(q) /\ ~q.shut THEN {[op |-> "new", up |-> FALSE, oneway |-> FALSE, retry |-> FALSE, i |-> 0]} ELSE {})
-  \cup {[op |-> k, s |-> s] : s \in q.live, k \in (IF Kind = "h2" THEN {"resp", "reset", "rreset"} ELSE {"resp", "reset"})}
+  \cup {[op |-> k, s |-> s] : s \in q.live \ q.pend, k \in (IF Kind = "h2" THEN {"resp", "rreset"} ELSE {"resp"})}
+  \cup {[op |-> "reset", s |-> s] : s \in q.live \cup (q.pend \cap q.ow)}
+  \cup (IF SplitNew
+        THEN {[op |-> "lease", up |-> TRUE, oneway |-> w, retry |-> FALSE, i |-> i] : w \in (IF Kind = "h2" THEN {FALSE} ELSE BOOLEAN), i \in NewIdx(q)}
+             \cup {[op |-> "send", s |-> s, enc |-> e] : s \in q.pend, e \in (IF Kind = "h2" THEN {TRUE} ELSE BOOLEAN)}
+        ELSE {})
   \cup {[op |-> k, c |-> c] : c \in Open(q) \ q.ga, k \in {"goaway"}}
   \cup {[op |-> k, c |-> c] : c \in Open(q), k \in {"rclose", "garbage"}}
   \cup (IF Open(q) # {} THEN {[op |-> "poolclose"]} ELSE {})
@@ -172,10 +215,11 @@ Spec == Init /\ [][Next]_vars
 (* ---- C09 for a multiplexed pool, as predicates of a pool record ---- *)
 TypeOKm(q) == /\ \A c \in Conns : q.cst[c] \in {"new", "open", "closed"}
               /\ q.live \subseteq 1..q.nstream /\ q.ga \subseteq Conns
+              /\ q.pend \subseteq 1..q.nstream /\ q.pend \cap q.ow \cap q.live = {}
 CountsExact(q) == /\ q.req = Cardinality(q.live) /\ q.act = Cardinality(q.live)
-                  /\ \A c \in Conns : q.cnt[c] = Cardinality(On(q, c))
+                  /\ \A c \in Conns : q.cnt[c] = Cardinality(Known(q, c))
                   /\ q.cact = Cardinality(Open(q))
-LiveOnOpen(q)   == \A s \in q.live : q.cst[q.son[s]] = "open"
+LiveOnOpen(q)   == \A s \in q.live : q.cst[q.son[s]] = "open" \/ (Kind = "h2" /\ s \in q.pend)
 GoAwayDrains(q) == \A c \in q.ga : q.cst[c] = "open" => On(q, c) # {}
 NoOrphan(q)     == \A c \in Open(q) : c \in q.ga \/ \E i \in Idx : q.slot[i] = c
 SlotUsable(q)   == \A i \in Idx : (q.slot[i] # 0 /\ q.slot[i] \notin q.ga) => q.cst[q.slot[i]] = "open"
@@ -193,14 +237,27 @@ InvNoOrphan == NoOrphan(m)
 InvSlotUsable == SlotUsable(m)
 InvLimit == maxReq # 0 => Cardinality(m.live) <= maxReq
 (* a stream is only handed out on a connection that is open and not going away *)
-InvAdmitOnUsable == (last.op = "new" /\ last.res = "ok") => (m.cst[last.c] = "open" /\ last.c \notin last.pre.ga)
+InvAdmitOnUsable == (last.op \in {"new", "lease"} /\ last.res = "ok") => (m.cst[last.c] = "open" /\ last.c \notin last.pre.ga)
 (* capacity returns: a refusal is justified by streams that are really open *)
-InvRefusalJustified == (last.op = "new" /\ last.res = "overflow") => (maxReq # 0 /\ Cardinality(last.pre.live) >= maxReq)
+InvRefusalJustified == (last.op \in {"new", "lease"} /\ last.res = "overflow") => (maxReq # 0 /\ Cardinality(last.pre.live) >= maxReq)
 (* refused / failed requests cost nothing of the request books *)
-InvRefusalNeutral == (last.op = "new" /\ last.res \in {"overflow", "connfail"}) =>
+InvRefusalNeutral == (last.op \in {"new", "lease"} /\ last.res \in {"overflow", "connfail"}) =>
                         (m.req = last.pre.req /\ m.act = last.pre.act /\ m.live = last.pre.live)
 (* no connection is dialled after Shutdown *)
 InvNoDialAfterShutdown == last.pre.shut => m.dialled = last.pre.dialled
+(* the counters never go negative *)
+InvNeverNegative == m.req >= 0 /\ m.act >= 0 /\ m.cact >= 0 /\ \A c \in Conns : m.cnt[c] >= 0
+(* a request whose write fails: the stream is over; an admission taken at lease time is given back exactly once (here,
+   or before by the close of the connection); a oneway stream never held one and gives nothing back *)
+InvSendFail == (last.op = "send" /\ last.res = "sendfail") =>
+                  LET had == IF last.s \in last.pre.live THEN 1 ELSE 0 IN
+                  /\ last.s \notin m.live /\ last.s \notin m.pend
+                  /\ m.req = last.pre.req - had /\ m.act = last.pre.act - had
+                  /\ (last.s \in m.ow => had = 0)
+(* a request that is written reaches the peer on the connection it was leased on, and costs nothing more *)
+InvSendOk == (last.op = "send" /\ last.res = "ok") =>
+                  /\ m.cst[last.c] = "open" /\ last.c = m.son[last.s]
+                  /\ m.req = last.pre.req /\ m.act = last.pre.act /\ m.live = last.pre.live
 
 EmitCase == (Len(hist) = MaxOps) => PrintT(<<"CASE", ToJson([mr |-> maxReq, ops |-> hist])>>)
 ====
